@@ -479,7 +479,13 @@ func (g *reqGen) selection(typ string, depth int, ind string) string {
 		b.WriteString(ind + "  ")
 		if alias {
 			g.nAli++
-			b.WriteString("a" + strconv.Itoa(g.nAli) + ": ")
+			if !used["\x00data"] && g.t.Bool(1, 6) {
+				// a response key that equals the library's own envelope key
+				used["\x00data"] = true
+				b.WriteString([]string{"data", "errors", "path"}[g.t.Draw(3)] + ": ")
+			} else {
+				b.WriteString("a" + strconv.Itoa(g.nAli) + ": ")
+			}
 		}
 		b.WriteString(f.name + g.argsFor(f.args) + g.directive())
 		if f.typ != "" {
